@@ -288,9 +288,12 @@ func (idx *HNSWIndex) Add(vector VectorNode) error {
 		return nil
 	}
 
+	// Register the node before linking it: pruneConnections looks neighbors up in
+	// idx.nodes and would otherwise drop every back-edge to the vertex being inserted
+	idx.nodes[id] = node
+
 	// Insert into graph
 	idx.insertNode(node)
-	idx.nodes[id] = node
 
 	idx.mu.Unlock()
 	return nil
